@@ -64,16 +64,18 @@ Proof.
 Qed.
 
 (* Terminal.Resize: both buffers are resized; nothing else changes; each buffer
-   announces its (unchanged) style *)
+   announces its (unchanged) style, then the cursor and the style of the screen
+   that is shown are announced *)
 Theorem resize_spec w h t : TInv t -> 1 <= w -> 1 <= h ->
   let t' := resize w h t in
   resize_cells w h (tmain t) (tmain t') /\ resize_geometry w h (tmain t) (tmain t')
   /\ resize_cells w h (talt t) (talt t') /\ resize_geometry w h (talt t) (talt t')
   /\ onalt t' = onalt t /\ vflags t' = vflags t /\ vints t' = vints t /\ vstrs t' = vstrs t
   /\ kbm t' = kbm t /\ kba t' = kba t /\ tout t' = tout t
-  /\ tlog t' = EStyle (sty (talt t)) :: EStyle (sty (tmain t)) :: tlog t.
+  /\ tlog t' = EStyle (sty (active t')) :: ECursor (cx (active t')) (cy (active t'))
+               :: EStyle (sty (talt t)) :: EStyle (sty (tmain t)) :: tlog t.
 Proof.
-  intros [Hm Ha _ _] Hw Hh. cbv zeta. unfold resize. cbn [tmain talt onalt vflags vints vstrs kbm kba tout tlog].
+  intros [Hm Ha _ _] Hw Hh. cbv zeta. unfold resize, log_ev, active. cbn [tmain talt onalt vflags vints vstrs kbm kba tout tlog].
   pose proof (proj1 (Inv_set_evs [] _) Hm) as Im. pose proof (proj1 (Inv_set_evs [] _) Ha) as Ia.
   split; [exact (set_size_cell w h _ Im Hw Hh)|].
   split; [exact (set_size_geometry w h (set_evs [] (tmain t)) Hw Hh)|].
@@ -94,7 +96,8 @@ Theorem resize_any_moment (wc : Z -> Z) (grid : bool) w0 h0 ops w h :
   /\ resize_cells w h (talt t) (talt t') /\ resize_geometry w h (talt t) (talt t')
   /\ onalt t' = onalt t /\ vflags t' = vflags t /\ vints t' = vints t /\ vstrs t' = vstrs t
   /\ kbm t' = kbm t /\ kba t' = kba t /\ tout t' = tout t
-  /\ tlog t' = EStyle (sty (talt t)) :: EStyle (sty (tmain t)) :: tlog t.
+  /\ tlog t' = EStyle (sty (active t')) :: ECursor (cx (active t')) (cy (active t'))
+               :: EStyle (sty (talt t)) :: EStyle (sty (tmain t)) :: tlog t.
 Proof.
   intros Hw0 Hh0 Hops Hw Hh. cbv zeta. apply resize_spec; [|exact Hw|exact Hh].
   apply TInv_run_hist; assumption.
@@ -121,7 +124,7 @@ Example resize_example_grow :
   row_at (resized 7 9) 1 = wide 22269 stA ++ [ch 100 stB] ++ wide 26085 stC ++ [blank stB; blank stB]
   /\ row_at (resized 7 9) 8 = blank_row 7 stB
   /\ cursor_of (resized 7 9) = (4, 1) /\ (top (resized 7 9), bot (resized 7 9)) = (1, 7)
-  /\ tlog (resize 7 9 ex_term) = [EStyle default_style; EStyle stB].
+  /\ tlog (resize 7 9 ex_term) = [EStyle stB; ECursor 4 1; EStyle default_style; EStyle stB].
 Proof. vm_compute. repeat split. Qed.
 
 (* the margin rule when the region no longer fits: 5x7 with region 1..5, resized to height 2 *)
